@@ -23,18 +23,19 @@ abbrev Addr := Nat
 structure Cfg where
   /-- F6 repair: MintDerivative mints ⌊shares received by the module⌋ instead of ⌊shares sent⌋ -/
   mintReceived : Bool
-  /-- F7 repair: TransferDelegation refuses a transfer whose unbonded token amount is zero -/
-  refuseZero : Bool
+  /-- F7 repair: TransferDelegation does not re-delegate when the unbonded token amount is zero
+      (it returns zero received shares, as the maintainers' own test expects, without storing a delegation) -/
+  skipZeroDelegate : Bool
   /-- F8 repair: the tally skips derivatives whose validator is not in the bonded set -/
   tallySkipUnbonded : Bool
 deriving DecidableEq, Repr
 
-def Cfg.current : Cfg := { mintReceived := false, refuseZero := false, tallySkipUnbonded := false }
-def Cfg.fixed : Cfg := { mintReceived := true, refuseZero := true, tallySkipUnbonded := true }
+def Cfg.current : Cfg := { mintReceived := false, skipZeroDelegate := false, tallySkipUnbonded := false }
+def Cfg.fixed : Cfg := { mintReceived := true, skipZeroDelegate := true, tallySkipUnbonded := true }
 
 /-- THE ONE-LINE SWITCH: the configuration of the code in /repo (used by the driver).
     After a `fix:` commit set the corresponding field to `true`. -/
-def cfg : Cfg := { mintReceived := false, refuseZero := false, tallySkipUnbonded := false }
+def cfg : Cfg := { mintReceived := false, skipZeroDelegate := false, tallySkipUnbonded := false }
 
 inductive Status where
   | unbonded | unbonding | bonded
@@ -196,7 +197,7 @@ def transfer (g : Cfg) (c : VSt) (frm to : Addr) (sh : Dec) : Res (VSt × Dec) :
           | .err => .err
           | .panic => .panic
           | .ok (c1, returnAmount) =>
-            if g.refuseZero = true ∧ returnAmount ≤ 0 then .err
+            if g.skipZeroDelegate = true ∧ returnAmount = 0 then .ok (c1, Dec.zero)
             else
               -- SendCoins(from, to, returnAmount) then delegateFromAccount
               match delegate c1 to returnAmount with
